@@ -58,6 +58,13 @@ def handle (op : String) (a : Args) : Option String :=
       | some .eof => "eof"
       | some .bad => "err"
     pure ("ok:" ++ ";".intercalate (items ++ [fin]))
+  | "fixed_gen" => do
+    -- LiteralDataFixedGenerator (binary mode, no name, time 0) announcing `n` over a source of `src` octets
+    let n ← a.nat "n"
+    let src ← pat a "src"
+    match fixedGen [98, 0, 0, 0, 0, 0] n src with
+    | some out => pure ("ok:" ++ showCk out)
+    | none => pure "err"
   | "emit" => do
     let tag ← a.nat "tag"
     let k ← a.nat "k"
